@@ -18,6 +18,7 @@ Events are JSON lists:
     ['field', lat, lon, h, date]            WMM.magnetic_field(lat, lon, h, date=date);   date 'omit': argument omitted
     ['reset', date]                         WMM.reset_coefficients(date)
     ['read', name]                          reading the property `name` (magnetic_elements | geodetic_vector)
+    ['refuse', lat, lon, h, bad]            WMM.magnetic_field(lat, lon, h, date=bad) with a date the package refuses (before 2015, NaN, a string): raises, changes nothing
 
 Date tokens: None | float (decimal year) | 'day:YYYY-MM-DD' (a datetime.date) | 'omit' (magnetic_field only).
 """
@@ -86,7 +87,7 @@ def replay(hist):
     for ev in hist:
         s.query = None
         s.prev_cur = s.cur
-        if ev[0] != 'read':
+        if ev[0] not in ('read', 'refuse'):
             s.after = last_kind
         if ev[0] == 'ctor':
             s.frame = ev[5].upper()
@@ -105,11 +106,11 @@ def replay(hist):
         elif ev[0] == 'reset':
             s.cur = decimal(ev[1])
             s.none_run = 0
-        elif ev[0] == 'read':
-            pass
+        elif ev[0] in ('read', 'refuse'):
+            pass                    # a refused query (invalid date) changes nothing the object answers for
         else:
             raise ValueError(ev)
-        if ev[0] != 'read':
+        if ev[0] not in ('read', 'refuse'):
             last_kind = _kind(ev)
     return s
 
@@ -144,6 +145,8 @@ def fevent(ev):
         return f'field({p})' if ev[4] == 'omit' else f'field({p},date={fdate(ev[4])})'
     if ev[0] == 'reset':
         return f'reset({fdate(ev[1])})'
+    if ev[0] == 'refuse':
+        return f'refused-field({fnum(ev[1])},{fnum(ev[2])},{fnum(ev[3])},date={ev[4]!r})'
     return f'read({ev[1]})'
 
 
@@ -161,6 +164,8 @@ def tags(hist):
         return t
     if ev[0] == 'reset':
         return f'op=reset(date={fdate(ev[1])})'
+    if ev[0] == 'refuse':
+        return f'op=refused-field(date={ev[4]!r})'
     return f'op=read({ev[1]})'
 
 
